@@ -83,6 +83,8 @@ Arrive(i) ==     \* a caller calls the batcher: look the key up, join or create 
 
 Answer(i) ==     \* the awaited (shielded) future is resolved: the caller returns / raises
     /\ cpc[i] = "wait" /\ fut[cfut[i]].st \in {"val", "exc", "berr", "missing", "cancelled"}
+    \* _forget is the first done-callback of the future: it runs before any caller is woken
+    /\ ~(forgetAt[cfut[i]] # -1 /\ forgetAt[cfut[i]] <= now /\ RT = 0)
     /\ cpc' = [cpc EXCEPT ![i] = "done"]
     /\ LET f == cfut[i]
            kind == CASE fut[f].st = "val" -> "val" [] fut[f].st = "exc" -> "exc"
@@ -197,16 +199,19 @@ Urgent == \/ queue # <<>> /\ Len(asm.items) < MaxB
           \/ \E f \in DOMAIN forgetAt : forgetAt[f] # -1 /\ forgetAt[f] <= now
 Horizon == MaxTime + 3 * (BT + RT + 2)
 Tick == /\ ~Urgent /\ now < Horizon
+        /\ (now < MaxTime \/ \A i \in Calls : cpc[i] # "new")      \* every call arrives by MaxTime
         /\ now' = now + 1
         /\ UNCHANGED <<cpc, cfut, cache, fut, ftag, forgetAt, queue, asm, ready, run, nb, ny, sem, mon>>
 
 AllDone == \A i \in Calls : cpc[i] = "done"
 Finish == AllDone /\ UNCHANGED vars
 
+DoForget == \E f \in DOMAIN forgetAt : Forget(f)
+DoYield == \E b \in DOMAIN run : \E f \in run[b].todo : BatchYield(b, f)
+DoRaise == \E b \in DOMAIN run : BatchRaise(b)
+DoEnd == \E b \in DOMAIN run : BatchEnd(b)
 Next == \/ \E i \in Calls : Arrive(i) \/ Answer(i) \/ CancelCaller(i)
-        \/ \E f \in DOMAIN forgetAt : Forget(f)
-        \/ AsmTake \/ AsmTimeout \/ BatchStart
-        \/ \E b \in DOMAIN run : BatchRaise(b) \/ BatchEnd(b) \/ \E f \in run[b].todo : BatchYield(b, f)
+        \/ DoForget \/ AsmTake \/ AsmTimeout \/ BatchStart \/ DoYield \/ DoRaise \/ DoEnd
         \/ Tick \/ Finish
 Spec == Init /\ [][Next]_vars
 FairSpec == Spec /\ WF_vars(Next)
